@@ -66,7 +66,8 @@ def object_level(ctx, spec, name, rep, objs, which, payload):
     """pairwise injectivity on the item channel + default triple + channel images"""
     h, w = (spec['shape'] if which == 'state' else spec['view'])
     encs = []
-    filler = Floor() if any(type(x) is Floor for x in objs) else next(x for x in objs if type(x) not in (NoneGridObject, Hidden))
+    filler = Floor() if any(type(x) is Floor for x in objs) else next(
+        (x for x in objs if type(x) not in (NoneGridObject, Hidden)), Hidden() if which == 'observation' else NoneGridObject())
     for o in objs:
         rows = [[repgen.copy_obj(filler) for _ in range(w)] for _ in range(h)]
         via_grid = type(o) is Hidden  # Hidden only ever sits in grid cells, NoneGridObject only in the hand
@@ -251,8 +252,8 @@ def mutation_consistency(ctx, spec, name, rep, objs, helds, which, rng, payload,
             if isinstance(o, Door) and rng.random() < 0.7:
                 o.state = rng.choice([st for st in Door.Status if st is not o.state])
                 changed.append('door.state')
-            elif type(o).__name__ in ('Key', 'Exit', 'Telepod', 'Beacon') and len(spec['colors']) > 1 and rng.random() < 0.5:
-                o.color = rng.choice([Color[c] for c in spec['colors'] if Color[c] is not o.color])
+            elif type(o).__name__ in ('Key', 'Exit', 'Telepod', 'Beacon') and len(set(spec['colors'])) > 1 and rng.random() < 0.5:
+                o.color = rng.choice([Color[c] for c in dict.fromkeys(spec['colors']) if Color[c] is not o.color])
                 changed.append('color')
     cy, cx = rng.randrange(h), rng.randrange(w)
     m.grid[cy, cx] = repgen.copy_obj(rng.choice(objs))
@@ -311,21 +312,23 @@ def space_case(ctx, types, colors, shape, view, idx):
     vh, vw = view
     spec = {'types': [t.__name__ for t in types], 'colors': [c.name for c in colors], 'shape': [h, w], 'view': [vh, vw]}
     rng = gen.rng_for('C16', ctx.seed, idx)
-    ss = StateSpace(Shape(h, w), types, colors)
+    stypes = [t for t in types if t is not Hidden]  # Hidden exists in observations only (a state space naming it is refused)
+    ss = StateSpace(Shape(h, w), stypes, colors)
     os_ = ObservationSpace(Shape(vh, vw), types, colors)
-    sobjs = repgen.member_objects(types, colors) + [NoneGridObject()]
-    oobjs = repgen.member_objects(types, colors) + [NoneGridObject(), Hidden()]
+    sobjs = repgen.dedup(repgen.member_objects(stypes, colors) + [NoneGridObject()])
+    oobjs = repgen.dedup(repgen.member_objects(types, colors) + [NoneGridObject(), Hidden()])
     ctx.add('spaces')
     for name in repgen.NAMES:
         payload = dict(spec, rep=name)
-        ok, srep = call_real(make_state_representation, name, ss)
+        ok, srep = call_real(make_state_representation, name, ss) if stypes else (False, None)
         ok2, orep = call_real(make_observation_representation, name, os_)
-        if not ok or not ok2:
+        if not ok2:
             continue
-        encs = object_level(ctx, spec, name, srep, sobjs, 'state', dict(payload, which='state'))
-        grid_objs = [o for o in sobjs if type(o) is not NoneGridObject]
-        member_level(ctx, spec, name, srep, grid_objs, 'state', rng, dict(payload, which='state'),
-                     [e for o, e in zip(sobjs, encs or []) if type(o) is not NoneGridObject])
+        if ok:
+            encs = object_level(ctx, spec, name, srep, sobjs, 'state', dict(payload, which='state'))
+            grid_objs = [o for o in sobjs if type(o) is not NoneGridObject or NoneGridObject in stypes]
+            member_level(ctx, spec, name, srep, grid_objs, 'state', rng, dict(payload, which='state'),
+                         [e for o, e in zip(sobjs, encs or []) if type(o) is not NoneGridObject or NoneGridObject in stypes])
         encs = object_level(ctx, spec, name, orep, oobjs, 'observation', dict(payload, which='observation'))
         grid_objs = [o for o in oobjs if type(o) is not NoneGridObject]
         member_level(ctx, spec, name, orep, grid_objs, 'observation', rng, dict(payload, which='observation'),
